@@ -1,4 +1,4 @@
-(** Model of src/epd2in9b_v4/mod.rs — STUB, not yet transcribed. *)
+(** Model of src/epd2in9b_v4/mod.rs (opcodes from src/epd2in9b_v4/command.rs). *)
 From Coq Require Import List NArith Bool.
 From EPD Require Import Iface Ops Drv.Luts.
 Import ListNotations.
@@ -8,11 +8,184 @@ Open Scope m_scope.
 Module Epd2in9b_v4.
 Definition WIDTH : N := 128.
 Definition HEIGHT : N := 296.
+Definition IS_BUSY_LOW := false.
 
-Definition init : M unit := ret tt.
+(** enum DisplayMode *)
+Inductive DisplayMode := Default | Partial | Fast | Base.
 
-Definition exec (k : N) (o : op) : option (M rval) := None.
+Definition width : N := WIDTH.
+Definition height : N := HEIGHT.
+
+Definition wait_until_idle : M unit := wait_idle IS_BUSY_LOW.
+
+Definition command (c : N) : M unit := cmd c.
+
+Definition send_data (l : list N) : M unit := data l.
+Definition send_data_e (e : dexp) : M unit := data_e e.    (* send_data on a caller buffer *)
+
+Definition turn_on_display (mode : DisplayMode) : M unit :=
+  command 0x22 ;;
+  let data := match mode with
+              | Default => 0xf7
+              | Partial => 0x1c
+              | Fast => 0xc7
+              | Base => 0xf4
+              end in
+  send_data [data] ;;
+  command 0x20 ;;
+  wait_until_idle.
+
+(** InternalWiAdditions *)
+Definition init : M unit :=
+  let w := width in
+  let h := height in
+  reset 200000 2000 ;;
+  wait_until_idle ;;
+  command 0x12 ;;
+  wait_until_idle ;;
+  command 0x01 ;;
+  send_data [u8 ((h - 1) mod 256)] ;;
+  send_data [u8 ((h - 1) / 256)] ;;
+  send_data [0] ;;
+  command 0x11 ;;
+  send_data [0x03] ;;
+  command 0x44 ;;
+  send_data [0] ;;
+  send_data [u8 (w / 8 - 1)] ;;
+  command 0x45 ;;
+  send_data [0] ;;
+  send_data [0] ;;
+  send_data [u8 ((h - 1) mod 256)] ;;
+  send_data [u8 ((h - 1) / 256)] ;;
+  command 0x3c ;;
+  send_data [0x05] ;;
+  command 0x21 ;;
+  send_data [0x00] ;;
+  send_data [0x80] ;;
+  command 0x18 ;;
+  send_data [0x80] ;;
+  command 0x4e ;;
+  send_data [0x00] ;;
+  command 0x4f ;;
+  send_data [0x00] ;;
+  send_data [0x00] ;;
+  wait_until_idle.
+
+(** WaveshareThreeColorDisplay *)
+Definition update_achromatic_frame (black : dexp) : M unit :=
+  command 0x24 ;;
+  send_data_e black.
+
+Definition update_chromatic_frame (chromatic : dexp) : M unit :=
+  command 0x26 ;;
+  send_data_e chromatic.
+
+Definition update_color_frame (black chromatic : dexp) : M unit :=
+  update_achromatic_frame black ;;
+  update_chromatic_frame chromatic.
+
+(** WaveshareDisplay *)
+Definition sleep : M unit :=
+  command 0x10 ;;
+  send_data [1] ;;
+  delay_ms 100.
+
+Definition wake_up : M unit := init.
+
+Definition update_frame (buffer : dexp) : M unit :=
+  command 0x24 ;;
+  send_data_e buffer ;;
+  command 0x26 ;;
+  data_x_times 0x00 (WIDTH / 8 * HEIGHT).
+
+Definition update_partial_frame (k len x y width height : N) : M unit :=
+  assert (width mod 8 =? 0) ;;
+  let x_start := x in
+  x_end <- add32 x width ;;
+  let y_start := y in
+  y_end <- add32 y height ;;
+  let '(x_start, x_end) :=
+    if ((x_start mod 8 + x_end mod 8 =? 8) && (x_end mod 8 <? x_start mod 8))
+       || (x_start mod 8 + x_end mod 8 =? 0)
+       || ((x_end - x_start) mod 8 =? 0)     (* x_end >= x_start: cannot underflow *)
+    then (x_start / 8, x_end / 8)
+    else (x_start / 8, if x_end mod 8 =? 0 then x_end / 8 else x_end / 8 + 1) in
+  x_end <- sub32 x_end 1 ;;
+  y_end <- sub32 y_end 1 ;;
+  let x_start := u8 x_start in
+  let x_end := u8 x_end in
+  let y_start_1 := u8 y_start in
+  let y_start_2 := u8 (shr y_start 8) in
+  let y_end_1 := u8 y_end in
+  let y_end_2 := u8 (shr y_end 8) in
+  command 0x44 ;;
+  send_data [x_start; x_end] ;;
+  command 0x45 ;;
+  send_data [y_start_1; y_start_2] ;;
+  send_data [y_end_1; y_end_2] ;;
+  command 0x4e ;;
+  send_data [x_start] ;;
+  command 0x4f ;;
+  send_data [y_start_1; y_start_2] ;;
+  command 0x24 ;;
+  send_data_e (DArg k 0 0 len).
+
+Definition display_frame : M unit :=
+  turn_on_display Default.
+
+Definition update_and_display_frame (buffer : dexp) : M unit :=
+  update_frame buffer ;;
+  display_frame.
+
+Definition clear_frame : M unit :=
+  let SIZE := WIDTH / 8 * HEIGHT in
+  command 0x24 ;;
+  data_x_times 0xff SIZE ;;
+  command 0x26 ;;
+  data_x_times 0 SIZE ;;
+  display_frame.
+
+Definition set_lut : M unit := ret tt.
+
+(** inherent public methods *)
+Definition update_and_display_frame_base (black : dexp) (chromatic : option dexp) : M unit :=
+  update_frame black ;;
+  (match chromatic with
+   | Some chromatic => update_chromatic_frame chromatic
+   | None => ret tt
+   end) ;;
+  turn_on_display Base ;;
+  command 0x26 ;;
+  send_data_e black.
+
+Definition display_frame_partial : M unit :=
+  turn_on_display Partial.
+
+Definition exec (k : N) (o : op) : option (M rval) :=
+  match o with
+  | OSleep => unit_ sleep
+  | OWakeUp => unit_ wake_up
+  | OSetBg c => unit_ (modify (set_bg c))
+  | OGetBg => Some (s <- get ;; ret (RColor (bg s)))
+  | OWidth => Some (ret (RNum WIDTH))
+  | OHeight => Some (ret (RNum HEIGHT))
+  | OUpdateFrame len => unit_ (update_frame (DArg k 0 0 len))
+  | OUpdatePartial len x y w h => unit_ (update_partial_frame k len x y w h)
+  | ODisplay => unit_ display_frame
+  | OUpdateAndDisplay len => unit_ (update_and_display_frame (DArg k 0 0 len))
+  | OClear => unit_ clear_frame
+  | OSetLut _ => unit_ set_lut
+  | OWaitIdle => unit_ wait_until_idle
+  | OUpdateColor l1 l2 => unit_ (update_color_frame (DArg k 0 0 l1) (DArg k 1 0 l2))
+  | OUpdateAchromatic len => unit_ (update_achromatic_frame (DArg k 0 0 len))
+  | OUpdateChromatic len => unit_ (update_chromatic_frame (DArg k 0 0 len))
+  | OUpdateAndDisplayBase l1 l2 =>
+      unit_ (update_and_display_frame_base (DArg k 0 0 l1)
+               (match l2 with Some n => Some (DArg k 1 0 n) | None => None end))
+  | ODisplayFramePartial => unit_ display_frame_partial
+  | _ => None
+  end.
 
 Definition drv (ft : feat) : driver :=
-  mkDriver WIDTH HEIGHT false d0 init exec.
+  mkDriver WIDTH HEIGHT false (mkD cWhite 0 false false 0 None) init exec.
 End Epd2in9b_v4.
